@@ -153,7 +153,10 @@ def _implicit_default_instances(classes, idxs, g):
     want = [i for i in idxs if any("tag" in f.metadata for f in dataclasses.fields(classes.cls(i)))]
     if not want:
         return []
-    replies = driver.run_batch([f"fields {i}" for i in want])
+    if "fields" not in _ATOM_INDEX:     # one driver run for all classes, once per process
+        allr = driver.run_batch([f"fields {i}" for i in range(len(classes))])
+        _ATOM_INDEX["fields"] = dict(enumerate(allr))
+    replies = [_ATOM_INDEX["fields"][i] for i in want]
     RANGES = {"int8": 7, "int16": 15, "int32": 31, "int64": 63}
     M61 = 2**61 - 1
 
